@@ -803,6 +803,16 @@ Ignored == {"conn.new", "tmo.set", "tmo.fire", "rpc.finish", "rpc.recv", "rpc.dr
             "obs.note", "obs.sub_lagged", "obs.known_finding", "adv.stream", "app.hostile",
             "app.hostile_end", "obs.alive", "obs.rpc_quiet", "obs.rpc_cfg", "obs.rpc_abandon"}
 
+(* C09: a connection lost without a word (both directions cut) is reported lost no later than  *)
+(* the node's own idle timeout (+ one keep-alive interval: the first ping after the last      *)
+(* receipt restarts the timer once)                                                            *)
+TrSilentEnd ==
+  /\ IsEvent("obs.silent_end")
+  /\ (Cur.t - Cur.since >= idle[N] + ka[N] + 2000) => ~Cur.listed
+  /\ UNCHANGED <<vars, pendEv, conns, tasks, spawnQ, nextTick, phase, subs, subPos, addrNode,
+                 lastAdd, replies, closeT, faultT, idle, ka, runStart, lastSend, quietLen,
+                 callListed, pathOut, pathIn, closingH, beginT, shutIdle>>
+
 TrIgnored ==
   /\ l <= Len(Rec) /\ Cur.ev \in Ignored /\ l' = l + 1 /\ now' = Cur.t
   /\ UNCHANGED <<vars, pendEv, conns, tasks, spawnQ, nextTick, phase, subs, subPos, addrNode,
@@ -820,7 +830,7 @@ TraceNext ==
   \/ TrConnectResult \/ TrConnectRefused \/ TrConnectAborted
   \/ TrShutBegin \/ TrShutClosed \/ TrShutAborted \/ TrShutJoined \/ TrShutIdle \/ TrShutDone
   \/ TrShutdownResult \/ TrApiAfter
-  \/ TrQuiesce \/ TrConverged \/ TrSettled \/ TrAcceptNone \/ TrSrvEnd \/ TrPath \/ TrRpcCall \/ TrRpcResult \/ TrRpcOpen \/ TrIgnored
+  \/ TrQuiesce \/ TrConverged \/ TrSettled \/ TrAcceptNone \/ TrSrvEnd \/ TrPath \/ TrRpcCall \/ TrRpcResult \/ TrRpcOpen \/ TrSilentEnd \/ TrIgnored
 
 TraceSpec == TraceInit /\ [][TraceNext]_allvars
 
